@@ -384,6 +384,8 @@ MATRIX_LEAVES = [{'prim': 'Unicode', 'facets': {'pattern': p}} for p in gen.PATT
     {'prim': 'Integer', 'facets': {'ge': 0, 'gt': 3, 'lt': 7, 'le': 10}, 'ok': 5},
     {'prim': 'Decimal', 'facets': {'gt': '0', 'ge': '1.5', 'le': '2.5', 'lt': '4'}, 'ok': '2'},
     {'prim': 'Double', 'facets': {'ge': '0.0', 'lt': '1.0'}, 'ok': 0.5},
+    # open on one side: the infinity of that side is a value of the type, the other one is not
+    {'prim': 'Double', 'facets': {'le': '10.0'}, 'ok': 0.5}, {'prim': 'Double', 'facets': {'gt': '-10.0'}, 'ok': 0.5},
     {'prim': 'Double', 'facets': {'gt': '0.0', 'ge': '1.0', 'le': '2.0', 'lt': '3.0'}, 'ok': 1.5},
     {'prim': 'DateTime', 'facets': {'ge': '2020-01-01T00:00:00', 'lt': '2021-01-01T00:00:00'}, 'ok': '2020-06-15T12:00:00'},
     {'prim': 'DateTime', 'facets': {'gt': '2020-01-01T00:00:00', 'ge': '2020-06-01T00:00:00', 'le': '2020-09-01T00:00:00', 'lt': '2021-01-01T00:00:00'},
